@@ -25,13 +25,14 @@ static int h_common(const char *nm, int argc, char **argv) {
     return 7; }
 #define H(nm) static int m_##nm(int argc, char **argv) { return h_common(#nm, argc, argv); } \
               static int r_##nm(int argc, char **argv, char *, int) { return h_common(#nm, argc, argv); }
-H(cmd) H(a) H(ab) H(help)
+H(cmd) H(a) H(ab) H(help) H(cmd_second) H(ab_second)
 static const struct mshell_command mtab1[] = {{"cmd", m_cmd, "c"}, {"a", m_a, 0}, {0, 0, 0}};
-static const struct mshell_command mtab2[] = {{"ab", m_ab, 0}, {"help", m_help, "h"}, {0, 0, 0}};
+// the second table repeats names of the first one with other handlers: the first table that names a command wins
+static const struct mshell_command mtab2[] = {{"ab", m_ab, 0}, {"cmd", m_cmd_second, "c2"}, {"help", m_help, "h"}, {"ab", m_ab_second, 0}, {0, 0, 0}};
 static const struct mshell_command mtab_all[] = {{"cmd", m_cmd, "c"}, {"a", m_a, 0}, {"ab", m_ab, 0}, {"help", m_help, "h"}, {0, 0, 0}};
 static const struct mshell_command *const mtabs[] = {mtab1, mtab2, 0};
 static const struct rshell_command rtab1[] = {{"cmd", r_cmd, "c"}, {"a", r_a, 0}, {0, 0, 0}};
-static const struct rshell_command rtab2[] = {{"ab", r_ab, 0}, {"help", r_help, "h"}, {0, 0, 0}};
+static const struct rshell_command rtab2[] = {{"ab", r_ab, 0}, {"cmd", r_cmd_second, "c2"}, {"help", r_help, "h"}, {"ab", r_ab_second, 0}, {0, 0, 0}};
 static const struct rshell_command rtab_all[] = {{"cmd", r_cmd, "c"}, {"a", r_a, 0}, {"ab", r_ab, 0}, {"help", r_help, "h"}, {0, 0, 0}};
 static const struct rshell_command_table rtabs[] = {{rtab1, 0}, {rtab2, 0}, {0, 0}};
 static void nested_dispatch() { char *p = blk(h_nest_line, true); int ret = -99;
